@@ -7,6 +7,7 @@ package main
 //	    var alias string; if len(aliases) != 1 { alias = name } else { alias = aliases[0] }
 //	    if existing := s.findByPath(path); existing != nil { if existing.Alias == alias { return "", nil }; return "", errors.New(..) }
 //	    if X := s.findByAlias(KEY); X != nil { return "", errors.New(..) }          -> collisionKey (alias | name)
+//	      optionally under `if alias != "_" && alias != "." { ... }`              -> collisionExempt (the literals; [] without)
 //	    s.imports = append(s.imports, &Import{Name: name, Path: path, Alias: alias})
 //	  findByPath / findByAlias compare imp.Path / imp.Alias with their parameter.
 //	internal/rewrite/rewriter.go  (*Rewriter).getFile
@@ -23,6 +24,7 @@ import (
 	"go/parser"
 	"go/token"
 	"path/filepath"
+	"strconv"
 	"strings"
 )
 
@@ -84,6 +86,31 @@ func rfReturnsError(b *ast.BlockStmt) bool {
 	return ok && (roSel(c.Fun) == "errors.New" || roSel(c.Fun) == "fmt.Errorf")
 }
 
+// rfExemptConj reads `alias != "a" && alias != "b" && ...` (string literals only) and returns the literals.
+func rfExemptConj(e ast.Expr) ([]string, bool) {
+	be, ok := e.(*ast.BinaryExpr)
+	if !ok {
+		return nil, false
+	}
+	if be.Op == token.LAND {
+		l, ok1 := rfExemptConj(be.X)
+		r, ok2 := rfExemptConj(be.Y)
+		if !ok1 || !ok2 {
+			return nil, false
+		}
+		return append(l, r...), true
+	}
+	lit, ok := be.Y.(*ast.BasicLit)
+	if be.Op != token.NEQ || roSel(be.X) != "alias" || !ok || lit.Kind != token.STRING {
+		return nil, false
+	}
+	v, err := strconv.Unquote(lit.Value)
+	if err != nil {
+		return nil, false
+	}
+	return []string{v}, true
+}
+
 func extractReserveFacts(repo string) (string, error) {
 	fset := token.NewFileSet()
 	impf, err := parser.ParseFile(fset, filepath.Join(repo, "codegen/templates/import.go"), nil, 0)
@@ -102,6 +129,7 @@ func extractReserveFacts(repo string) (string, error) {
 	}
 	sawName, sawAliasChoice, sawPath, sawAppend := false, false, false, false
 	key := ""
+	var exempt []string // nil: the collision test is unconditional
 	nAliasCalls := 0
 	ast.Inspect(res.Body, func(n ast.Node) bool {
 		if c, ok := n.(*ast.CallExpr); ok && roSel(c.Fun) == "s.findByAlias" {
@@ -163,6 +191,25 @@ func extractReserveFacts(repo string) (string, error) {
 					sawAliasChoice = true
 					continue
 				}
+			}
+			// if alias != "_" && alias != "." { <alias guard> }: the aliases that are exempt from the collision test
+			if lits, ok := rfExemptConj(st.Cond); ok && st.Init == nil {
+				var inner *ast.IfStmt
+				if len(st.Body.List) == 1 {
+					inner, _ = st.Body.List[0].(*ast.IfStmt)
+				}
+				if st.Else != nil || inner == nil || exempt != nil || key != "" {
+					return "", fmt.Errorf("import.go: Reserve: unknown statement under the test of the alias against %v", lits)
+				}
+				ias, ok := inner.Init.(*ast.AssignStmt)
+				if !ok || len(ias.Lhs) != 1 || len(ias.Rhs) != 1 {
+					return "", fmt.Errorf("import.go: Reserve: unknown statement under the test of the alias against %v", lits)
+				}
+				if c, ok := ias.Rhs[0].(*ast.CallExpr); !ok || roSel(c.Fun) != "s.findByAlias" || len(c.Args) != 1 {
+					return "", fmt.Errorf("import.go: Reserve: the test of the alias against %v no longer guards the findByAlias collision test", lits)
+				}
+				exempt = lits
+				st = inner
 			}
 			as, ok := st.Init.(*ast.AssignStmt)
 			if !ok || len(as.Lhs) != 1 || len(as.Rhs) != 1 {
@@ -299,6 +346,12 @@ func extractReserveFacts(repo string) (string, error) {
 	b.WriteString("/-- what `(*Imports).Reserve` looks up with findByAlias before it appends `&Import{Name: name, Path: path, Alias: alias}` -/\n")
 	b.WriteString("inductive CollisionKey\n  | alias  -- the name the import will have in the file (the explicit alias, else the package name)\n  | name   -- the package's real name, whatever the alias\n  deriving DecidableEq, Repr\n\n")
 	fmt.Fprintf(&b, "def collisionKey : CollisionKey := %s\n\n", key)
+	b.WriteString("/-- the aliases `Reserve` does NOT look up with findByAlias (`if alias != \"_\" && alias != \".\" { <collision test> }`;\n[] = the collision test is unconditional, the shape before the repair of F19h) -/\n")
+	qs := []string{}
+	for _, e := range exempt {
+		qs = append(qs, strconv.Quote(e))
+	}
+	fmt.Fprintf(&b, "def collisionExempt : List String := [%s]\n\n", strings.Join(qs, ", "))
 	b.WriteString("/-- what `(*Rewriter).getFile` caches for a file, as a function of the bytes os.ReadFile returned; getSource slices\nTHAT text with the byte offsets go/parser computed on the bytes themselves -/\n")
 	b.WriteString("inductive CacheForm\n  | raw       -- string(b)\n  | crlfToLf  -- strings.ReplaceAll(string(b), \"\\r\\n\", \"\\n\")\n  deriving DecidableEq, Repr\n\n")
 	fmt.Fprintf(&b, "def cacheForm : CacheForm := %s\n\n", form)
